@@ -177,5 +177,8 @@ def run(ctx, rep):
         bad = [v for v in sub.violations if v.rule == rname]
         rep.require(not bad, "sub-slices", "%s rule of %s" % (rname, pid), "src/string_table.rs" if pid == "C15" else "src/note.rs", what,
                     "%s: %s" % (what, "; ".join("%s: %s" % (v.key, v.msg[:200]) for v in bad[:3])))
+    # the ranges are read off the decoded header structs: that the structs hold the file's fields (not a normalised / clamped copy) is C02
+    from ._common import premise
+    premise(ctx, rep, "C02", "the header fields that designate ranges are the file's fields", rules={"decode", "decode-reads", "decode-size", "decode-errors"}, where="src/section.rs, src/segment.rs")
     rep.trusted_base += ["C06: no allocation, hence a &'data [u8] can only be a sub-slice of the input or a 'static constant",
                         "value-preservation of try_into / checked_add on success; semantics of <[u8]>::get"]
